@@ -1067,3 +1067,198 @@ def c06(tier, sc):
                         "VerifSQLiLex / VerifSQLiPass drive the same tokenize()/fold()/blacklist()/notWhitelist() the public API runs; "
                         "the api.* events are hooks inside the real IsSQLi call"]
     return rep.finish()
+
+
+# ---------------------------------------------------------------------------
+# SQLi monitors and products: C16 C08 C12 C18 C10 C14
+
+def sqli_props(sc, d, rep, name, mode, un, maxlen, openers=("",), templates=(), timeout=3000):
+    res = vlib.tlc_mc(sc, d, "SqliProps", "SP_" + name, {
+        "Units": units(un), "MaxLen": maxlen, "Openers": units(openers),
+        "Templates": "{" + ", ".join(tla_seq(t) for t in templates) + "}",
+        "Mode": '"%s"' % mode, "DoExport": "TRUE"},
+        invariants=["Prop", "Export"], extra=["-continue"], timeout=timeout)
+    if "states generated" not in res.out:
+        raise ToolFailure("TLC failed on SqliProps/%s:\n%s" % (name, res.out[-3000:]))
+    rep.add_tlc("SqliProps/" + name, res)
+    got = res.printed()
+    nviol = len(re.findall(r"Invariant Prop is violated", res.out))
+    rep.part("SqliProps/" + name, mode=mode, units=[show(vgen.b(u)) for u in un][:40], maxlen=maxlen,
+             openers=list(openers), templates=len(templates), cases=len(got), model_counterexamples=nviol)
+    if nviol:
+        rep.notes.append("model_counterexample: SqliProps/%s Prop violated on the specification in %d states" % (name, nviol))
+    return got
+
+
+def sqli_api(sc, vh, inputs):
+    return vlib.harness_map(sc, vh, "sqli-api", [{"in": x} for x in inputs])
+
+
+def byte_units(s):
+    return [bytes([c]).decode("latin1") for c in vgen.b(s)]
+
+
+def mon_sqli(sc, d, rep, trace_path, name):
+    t0 = time.time()
+    ev, ntr, rejects, st, gen = validate_traces(sc, d, "MonSqli.tla", "MonSqli.cfg", trace_path, heap="4g")
+    rep.cov["states"] += st
+    rep.cov["transitions"] += gen
+    rep.part(name, events=ev, traces=ntr, rejected=len(rejects), wall_s=round(time.time() - t0, 1))
+    return ev, ntr, rejects
+
+
+@check("C16")
+def c16(tier, sc):
+    rep = Report("C16", tier, "model_checking")
+    vh = build_harness(sc)
+    tfile, _ = gen_tables(sc, vh)
+    d = stage_specs(sc, "c16", [tfile])
+    # model: LexInv holds in every state of the lexer over all short inputs, all six modes
+    beh = sqli_export(sc, d, rep, tier, only={"lex"})
+    inputs = list(vgen.dedup([b["in"] for b in beh] + sqli_inputs(tier, "c16")))
+    inp = sc.path("c16-in.ndjson")
+    write_ndjson(inp, [{"in": x} for x in inputs])
+    tr = sc.path("c16-trace.ndjson")
+    run([vh, "sqli-record", inp, tr, "lexonly"], check=True, timeout=3000)
+    ev, ntr, rejects = mon_sqli(sc, d, rep, tr, "MonSqli.C16")
+    for rj in rejects:
+        rep.violation("lexer trace of the real code breaks the clause %r on %r mode=%s: %s" % (
+            rj["reject"], show(rj["in"]), rj["flags"], json.dumps(rj["impl"])[:300]),
+            {"kind": "sqli.c16", "in": rj["in"], "flags": rj["flags"], "clause": rj["reject"], "impl": rj["impl"]})
+    # canary: a corrupted token must be rejected
+    lines = open(tr).read().split("\n")
+    for i, l in enumerate(lines):
+        if '"ev":"tok"' in l and '"len":2' in l:
+            e = json.loads(l)
+            e["t"]["pos"] += 1
+            lines[i] = json.dumps(e, separators=(",", ":"))
+            break
+    cp = sc.path("c16-canary.ndjson")
+    open(cp, "w").write("\n".join(lines[:max(i + 50, 200)]) + "\n")
+    _, _, rj2, _, _ = validate_traces(sc, d, "MonSqli.tla", "MonSqli.cfg", cp, shards=1)
+    if not rj2:
+        raise ToolFailure("C16 canary accepted")
+    rep.cov["traces_validated_against_impl"] = ntr * 6
+    rep.cov["evaluations"] = ntr * 6
+    rep.part("real", inputs=len(inputs), modes=6)
+    for x in inputs[3000:3003]:
+        rep.sample(show(x))
+    rep.assumptions += ["the monitor asserts only the clauses of C16 on (before, after, pos, len, val, class) logged by VerifSQLiLex"]
+    return rep.finish()
+
+
+def api_records(sc, vh, inputs, tag):
+    inp = sc.path("apirec-%s-in.ndjson" % tag)
+    write_ndjson(inp, [{"in": x, "tag": tag} for x in inputs])
+    out = sc.path("apirec-%s.ndjson" % tag)
+    run([vh, "sqli-modes", inp, out], check=True, timeout=3000)
+    return out
+
+
+def c08_c12_inputs(sc, d, rep, tier):
+    beh = sqli_export(sc, d, rep, tier, only={"check"})
+    ins = [b["in"] for b in beh] + sqli_inputs(tier, "c08")
+    return list(vgen.dedup(ins))
+
+
+@check("C08")
+def c08(tier, sc):
+    rep = Report("C08", tier, "model_checking")
+    vh = build_harness(sc)
+    tfile, _ = gen_tables(sc, vh)
+    d = stage_specs(sc, "c08", [tfile])
+    inputs = c08_c12_inputs(sc, d, rep, tier)          # model: FpShape / ResultConsistent invariants
+    rec = api_records(sc, vh, inputs, "C08")
+    ev, ntr, rejects = mon_sqli(sc, d, rep, rec, "MonSqli.C08")
+    npos = sum(1 for l in open(rec) if '"sqli":true' in l)
+    for rj in rejects:
+        rep.violation("IsSQLi(%r) = %s breaks the clause %r" % (show(rj["in"]), json.dumps(rj["impl"]), rj["reject"]),
+                      {"kind": "sqli.c08", "in": rj["in"], "clause": rj["reject"], "impl": rj["impl"]})
+    # canary
+    first = None
+    for l in open(rec):
+        if '"sqli":true' in l:
+            first = json.loads(l)
+            break
+    if first:
+        first["fp"] = first["fp"] + [99, 49]
+        cp = sc.path("c08-canary.ndjson")
+        write_ndjson(cp, [first])
+        _, _, rj2, _, _ = validate_traces(sc, d, "MonSqli.tla", "MonSqli.cfg", cp, shards=1)
+        if not rj2:
+            raise ToolFailure("C08 canary accepted")
+    rep.cov["traces_validated_against_impl"] = ntr
+    rep.cov["evaluations"] = ntr
+    rep.part("real", inputs=len(inputs), verdict_true=npos)
+    for x in inputs[1000:1003]:
+        rep.sample(show(x))
+    rep.assumptions += ["blacklist membership is evaluated on the table exported from the running code (Tables.tla)",
+                        "'fingerprint of the input under some context' uses the six fresh-state passes of VerifSQLiPass"]
+    return rep.finish()
+
+
+@check("C12")
+def c12(tier, sc):
+    rep = Report("C12", tier, "model_checking")
+    vh = build_harness(sc)
+    tfile, _ = gen_tables(sc, vh)
+    d = stage_specs(sc, "c12", [tfile])
+    big = tier == "thorough"
+    inputs = c08_c12_inputs(sc, d, rep, tier)          # model: CascadeOrder / ResultConsistent invariants
+    rec = api_records(sc, vh, inputs, "C12")
+    ev, ntr, rejects = mon_sqli(sc, d, rep, rec, "MonSqli.C12")
+    for rj in rejects:
+        rep.violation("cascade of IsSQLi(%r) breaks the clause %r: %s" % (show(rj["in"]), rj["reject"], json.dumps(rj["impl"])[:400]),
+                      {"kind": "sqli.c12", "in": rj["in"], "clause": rj["reject"], "impl": rj["impl"]})
+    firing = {}
+    for l in open(rec):
+        e = json.loads(l)
+        if e["sqli"]:
+            firing[len(e["passes"])] = firing.get(len(e["passes"]), 0) + 1
+    rep.part("real.cascade", inputs=len(inputs), first_firing_pass_histogram=firing)
+    # quote-prefix relation, real vs real on fresh state
+    q = sqli_props(sc, d, rep, "quote", "quote", byte_units("1a'\" -#/*=(\\"), 4 if big else 3,
+                   templates=[x for x in vgen.corpus("sqli.txt") if len(x) < 60])
+    items = []
+    for c in q:
+        items.append({"in": c["in"]})
+        items.append({"in": [39] + c["in"]})
+        items.append({"in": [34] + c["in"]})
+    out = sc.path("c12-quote.ndjson")
+    inp = sc.path("c12-quote-in.ndjson")
+    write_ndjson(inp, items)
+    run([vh, "sqli-modes", inp, out], check=True, timeout=3000)
+    res = read_ndjson(out)
+    nq = 0
+
+    def untok(t):
+        return (t["cat"], t["len"], t["cnt"], t["close"], tuple(t["val"]))
+    for i, c in enumerate(q):
+        base, sq, dq = res[3 * i], res[3 * i + 1], res[3 * i + 2]
+        if base["panic"] or sq["panic"] or dq["panic"]:
+            continue
+        for quote, other, pairs in ((39, sq, ((10, 9), (18, 17))), (34, dq, ((12, 9), (20, 17)))):
+            for inside, asis in pairs:
+                a = base["modes"][str(inside)]
+                b = other["modes"][str(asis)]
+                nq += 1
+                why = None
+                if a["fp"] != b["fp"]:
+                    why = "fingerprint"
+                elif [untok(t) for t in a["toks"]] != [untok(t) for t in b["toks"]]:
+                    why = "tokens"
+                elif (a["ddx"], a["hash"], a["ntok"], a["folds"]) != (b["ddx"], b["hash"], b["ntok"], b["folds"]):
+                    why = "statistics"
+                elif a["fp"] not in ([115, 111, 115], [115, 38, 115]) and a["verdict"] != b["verdict"]:
+                    why = "verdict"
+                if why:
+                    rep.violation("reading %r inside %s (mode %d) and reading %s+input as-is (mode %d) differ in %s: %s vs %s" % (
+                        show(c["in"]), chr(quote), inside, chr(quote), asis, why, bytes(a["fp"]), bytes(b["fp"])),
+                        {"kind": "sqli.quote", "in": c["in"], "quote": quote, "inside": inside, "asis": asis, "why": why})
+    rep.part("real.quote", cases=len(q), relations=nq)
+    rep.cov["traces_validated_against_impl"] = ntr + nq
+    rep.cov["evaluations"] = ntr + nq
+    for x in inputs[2000:2003]:
+        rep.sample(show(x))
+    rep.assumptions += ["the executed pass sequence is read from the hooks inside the real IsSQLi call; the reference readings are the six fresh-state passes"]
+    return rep.finish()
